@@ -2,7 +2,7 @@
    variable, what an all-parked state looks like, and that such a state is permanent *)
 From Coq Require Import NArith ZArith List Bool Arith Lia.
 From Blue Require Import Lsm.Model Stall.Select Stall.Known Stall.Proto Stall.ProofsBasic Stall.ProofsAdm
-  Stall.ProofsTotal Stall.ProofsStall.
+  Stall.ProofsTotal Stall.ProofsStall Stall.ProofsRelief.
 Import ListNotations.
 Open Scope N_scope.
 
